@@ -764,6 +764,18 @@ def stack_plugin():
             @classmethod
             def input_keywords(cls):
                 return ['add50', ]
+        class ShiftByT(TemperatureMixin):
+            """declares a keyword its base declares too (T): the value given in the file is for both"""
+            def __init_mixin__(self, T=0.0):
+                self._shift = 0.001 * T
+
+            @property
+            def profile(self):
+                return super().profile + self._shift
+
+            @classmethod
+            def input_keywords(cls):
+                return ['shiftbyt', ]
         from taurex.mixin import GasMixin
 
         class ScaleGas(GasMixin):
@@ -778,8 +790,8 @@ def stack_plugin():
             def input_keywords(cls):
                 return ['scalegas', ]
         mod = types.ModuleType('verif_stack_plugin')
-        Doubler.__module__ = Add50.__module__ = ScaleGas.__module__ = mod.__name__
-        mod.Doubler, mod.Add50, mod.ScaleGas = Doubler, Add50, ScaleGas
+        Doubler.__module__ = Add50.__module__ = ScaleGas.__module__ = ShiftByT.__module__ = mod.__name__
+        mod.Doubler, mod.Add50, mod.ScaleGas, mod.ShiftByT = Doubler, Add50, ScaleGas, ShiftByT
         _STACK_PLUGIN.append(mod)
     return _STACK_PLUGIN[0]
 
@@ -830,7 +842,8 @@ def stack_case(case):
         return r
     want = 1000.0
     for m in reversed(sel.split('+')[:-1]):            # the mixin written next to the base acts first
-        want = {'doubler': want * 2, 'add50': want + (70.0 if case.get('amount') else 50.0), 'tempscalar': want * 3.0}[m]
+        want = {'doubler': want * 2, 'add50': want + (70.0 if case.get('amount') else 50.0), 'tempscalar': want * 3.0,
+                'shiftbyt': want + 1.0}[m]
     r.eq(prof, np.full(3, want), 'stack-order', 'stack/order/' + tag, rtol=1e-12, text=text)
     names = [b.__name__ for b in type(obj).__bases__]
     r.check(len(names) == len(sel.split('+')), 'composite-class', 'stack/bases/' + tag, got=names)
@@ -893,7 +906,8 @@ def enumerate_mixin(ctx):
     ctx.run_cases('plugin_case', [{'plugin': 'all-families'}], phase='plugin')
     stacks = ['doubler+isothermal', 'add50+isothermal', 'doubler+add50+isothermal', 'add50+doubler+isothermal',
               'tempscalar+add50+isothermal', 'add50+tempscalar+isothermal', 'doubler+tempscalar+add50+isothermal',
-              'add50+tempscalar+doubler+isothermal']
+              'add50+tempscalar+doubler+isothermal', 'shiftbyt+isothermal', 'doubler+shiftbyt+isothermal',
+              'shiftbyt+add50+isothermal']
     sc = [{'stack': s_} for s_ in stacks] + [{'stack': s_, 'amount': True} for s_ in stacks if 'add50' in s_]
     sc.append({'stack': 'scalegas+constant', 'family': 'gas'})
     ctx.run_cases('stack_case', sc, phase='stack')
@@ -1411,6 +1425,8 @@ CLI_DIMS = {
     'layers': [5, 3, 8],
     'form': ['asdoc', 'cap'],
     'interp': ['omitted', 'exp'],
+    # where the layering is declared: a [Pressure] section, or keys of [Model] with no [Pressure] section at all
+    'press': ['section', 'model-keys'],
 }
 CLI_WN = np.linspace(800.0, 4000.0, 17)
 
@@ -1492,8 +1508,14 @@ def cli_par(case, v, xdir):
         elif c == 'flat':
             model.append(('FlatMie', [('flat_mix_ratio', '1e-9'), ('flat_bottomP', '1e5'),
                                       ('flat_topP', '1e1')]))
-    tree = [('Global', glob), ('Chemistry', chem), ('Temperature', temp), ('Pressure', pres),
-            ('Planet', planet), ('Star', star), ('Model', model)]
+    if case.get('press', 'section') == 'model-keys':
+        # no [Pressure] section: the layering is given under [Model] (the model then builds its own simple profile)
+        model[1:1] = [('atm_min_pressure', '1e-1'), ('atm_max_pressure', '1e6'), ('nlayers', str(case['layers']))]
+        tree = [('Global', glob), ('Chemistry', chem), ('Temperature', temp),
+                ('Planet', planet), ('Star', star), ('Model', model)]
+    else:
+        tree = [('Global', glob), ('Chemistry', chem), ('Temperature', temp), ('Pressure', pres),
+                ('Planet', planet), ('Star', star), ('Model', model)]
     b = case['binning']
     if case.get('obs', 'none') == 'self':
         tree.append(('Observation', [('taurex_spectrum', 'self')]))
@@ -1507,6 +1529,8 @@ def cli_par(case, v, xdir):
         tree.append(('Binning', [('bin_type', 'manual'), ('wavenumber_grid', '1000, 3800, 6')]))
     elif b == 'manual_wl_acc':
         tree.append(('Binning', [('bin_type', 'manual'), ('wavelength_grid', '2.7, 9.5, 5'), ('accurate', 'true')]))
+    elif b == 'manual_logwl':
+        tree.append(('Binning', [('bin_type', 'manual'), ('log_wavelength_grid', '2.6, 11.0, 6')]))
     elif b == 'manual_logwn':
         tree.append(('Binning', [('bin_type', 'manual'), ('log_wavenumber_grid', '900, 3900, 7'),
                                  ('accurate', 'False')]))
@@ -1549,6 +1573,9 @@ def cli_library(case, v, xdir):
     planet = Planet(planet_mass=v['mass'], planet_radius=v['radius'])
     star = BlackbodyStar(temperature=v['tstar'], radius=v['rstar'])
     kw = dict(planet=planet, star=star, pressure_profile=pres, temperature_profile=temp, chemistry=chem)
+    if case.get('press', 'section') == 'model-keys':
+        kw = dict(planet=planet, star=star, temperature_profile=temp, chemistry=chem, nlayers=case['layers'],
+                  atm_min_pressure=1e-1, atm_max_pressure=1e6)
     if case['model'] == 'transmission':
         model = TransmissionModel(**kw)
     elif case['model'] == 'emission':
